@@ -31,7 +31,7 @@ def _lim_tol(rname, slope):
 @group(quick=900, thorough=30000)
 def constants1d(ctx, rng, idx):
     """constant data: every reconstructed face state equals the cell value exactly (any model, mesh, scheme, BC)"""
-    s = gen.scenario1d(rng, nmin=1 if rng.random() < 0.1 else 2, nmax=20)
+    s = gen.scenario1d(rng, nmin=1 if rng.random() < 0.1 else 2, nmax=20, lscale=0.15)
     n = s.mesh.ncell
     vals = [float(rng.choice([0.0, 1.0, -2.5, 10 ** rng.uniform(-6, 6)])) if s.mname in ("convection", "burgers") else float(10 ** rng.uniform(-6, 6)) for _ in range(s.model.neq)]
     if s.mname == "burgers" and vals[0] == 0:
@@ -78,7 +78,7 @@ def linear1d(ctx, rng, idx):
     """a*x+b on arbitrary monotone faces, non-periodic ends: exact at interior faces for every k-scheme and limiter"""
     rname0 = gen.ALL_RECONS[idx % len(gen.ALL_RECONS)]
     num, rname = gen.recon(rname0, rng)
-    mesh, mdesc = gen.mesh1d(rng, nmin=3, nmax=24, big=0.03)
+    mesh, mdesc = gen.mesh1d(rng, nmin=3, nmax=24, big=0.03, lscale=0.2)
     a = float(rng.choice([1.0, -1.0, 10 ** rng.uniform(-3, 3) * rng.choice([-1, 1])]))
     b = float(rng.uniform(-2, 2) * abs(a) * mesh.length)
     model = conv.model(float(rng.choice([1.0, -1.0])))
